@@ -11,7 +11,7 @@ from ..core import Failure
 from ..model import MP, arr_close, first_diff
 
 ID = "C10"
-BUDGET = {"quick": 700, "thorough": 2500}
+BUDGET = {"quick": 700, "thorough": 8000}
 TECHNIQUE = ("Hypothesis-generated (polynomial arrays, axis/keepdims/n/prepend/append/operand-shape choices) vs numpy "
              "folds on object arrays of exact model polynomials (Leibniz sum for det); method / add.reduce / "
              "add.accumulate spelling differential")
